@@ -155,6 +155,17 @@ CLAIMED["C14"] = (
     "DESIGN.md 3 C14",
 )
 
+CLAIMED["C15"] = (
+    XH + "; descriptor shapes (which descriptors, in which order, shared or distinct) enumerated by the driver, carrier values and replace/rename flags symbolic",
+    "merge_record_descriptors/extend_record over every ordered pair and (seeded quick / all thorough) triple of five descriptors with conflicting field types, with repeated "
+    "positions both as distinct and as one shared descriptor; iter_timestamped_records over records of up to three fields from a pool of six in every order with one datetime unset; "
+    "GroupedRecord flat view, members and _replace at flat and member level; RecordFieldRewriter over every projection list x exclusion subset and Record._replace - each compared, "
+    "for all integer carrier values and both flags, with a dictionary reference model written from the statement (field order, first/last wins for value and type, originals untouched, "
+    "metadata kept).",
+    "Trusted: the reference model in harness/C15.py. Outside: descriptors with more than three fields, datetime values (concrete instants), coercion of typed values (C05).",
+    "DESIGN.md 3 C15",
+)
+
 NOT_APPLICABLE = {
     "C13": "every operation the property constrains (datetime construction/arithmetic, fromisoformat, zoneinfo, fastavro/sqlite3 conversions) is C code; "
     "CrossHair realises each datetime component at the C constructor and the repo-side logic is two value-free ifs, so no value-level case would be decided by the solver (DESIGN.md 6)",
